@@ -442,16 +442,21 @@ def closure_body(body, param, exactly, nth=0):
             e = parse_expr(m.group(1))
         except Unsupported:
             continue
-        if free_vars(e) == set(exactly):
+        if _vars_but_consts(e) == set(exactly):
             es.append(e)
     if len(es) <= nth:
         raise Unsupported(f"closure |{param}| over {sorted(exactly)} (#{nth}) not found")
     return es[nth]
 
 
+def _vars_but_consts(e):
+    """free variables, named constants (ALL_CAPS identifiers) aside: `limit <= prev + MIN_LEN` is a condition over limit, prev"""
+    return {v for v in free_vars(e) if not re.fullmatch(r"[A-Z][A-Z0-9_]*", v)}
+
+
 def cond_over(body, exactly, nth=0):
-    """the nth condition whose free variables are exactly the set `exactly`"""
-    cs = [c for c in if_conds(body) if free_vars(c) == set(exactly)]
+    """the nth condition whose free variables (named constants aside) are exactly the set `exactly`"""
+    cs = [c for c in if_conds(body) if _vars_but_consts(c) == set(exactly)]
     if len(cs) <= nth:
         raise Unsupported(f"no condition (#{nth}) over {sorted(exactly)}")
     return cs[nth]
